@@ -70,7 +70,7 @@ class Sweep:
         q = tier == "quick"
         base = sweep.repo_cases() + sweep.generated_cases(rng, gen_n or (3 if q else 25))
         # regression corpus first
-        self.cases = corpus_cases() + base + sweep.damaged_cases(rng, base, dmg if dmg is not None else (1 if q else 8))
+        self.cases = corpus_cases() + base + sweep.hostile_cases(rng, 6 if q else 60) + sweep.damaged_cases(rng, base, dmg if dmg is not None else (1 if q else 8))
         self.clean = scenario.run_scenarios(self.exe, [c.scn for c in self.cases], timeout_each=20)
         for c in self.cases: res.count("case-" + c.label.split(":")[0] + "-" + c.fmt)
         res.evaluations += len(self.cases)
